@@ -372,6 +372,16 @@ def p1_pairing(run):
                 gs = facts(ucfg, nd.id)
                 if Q("binding == %s" % b) in gs:
                     hits.append(ucfg.itext(s.value, nd.id))
+                    continue
+                # arms merged over several bindings (`binding in (A, B)`):
+                # reachable when binding is b and none of the other values
+                asm = {"binding == %s" % b2: ("T" if b2 == b else "F")
+                       for b2 in dec}
+                if any("binding" in g[0] for g in gs) and ucfg.flag_search(
+                        ucfg.entry, {}, lambda n, vd, t=nd.id: n == t,
+                        assume=asm) is not None and not any(
+                        Q("binding == %s" % b2) in gs for b2 in dec if b2 != b):
+                    hits.append(ucfg.itext(s.value, nd.id))
         run.check(hits == [expr], "P1", "%s::%s" % (un.qual, b),
                   "decoder is %s" % expr,
                   "decoder for %s is %s (encoder: %s)" % (b, hits, enc[b]),
@@ -482,6 +492,33 @@ def s1_soap(run):
     run.check(len(cs) == 1 and unparse(cs[0].args[0]) == "body", "S1",
               mk.qual + "::embed", "element appended to the Body",
               "SAML element no longer appended to the SOAP Body", mk.loc())
+    # the SOAP decoders look for Body / Header among the DIRECT children of
+    # the envelope: a search through the whole subtree (iter, getiterator,
+    # './/' paths) finds elements that a header block merely carries inside
+    for modname in ("soap", "pack"):
+        mi = m.module(modname)
+        deep = []
+        for c in ast.walk(mi.tree):
+            if isinstance(c, ast.Call) and isinstance(c.func, ast.Attribute):
+                if c.func.attr in ("iter", "getiterator", "itertext") and \
+                        not isinstance(c.func.value, ast.Constant):
+                    deep.append(c)
+                elif c.func.attr in ("find", "findall", "iterfind", "findtext") \
+                        and c.args and isinstance(c.args[0], ast.Constant) and \
+                        isinstance(c.args[0].value, str) and \
+                        "//" in c.args[0].value:
+                    deep.append(c)
+        for c in deep:
+            f = m.enclosing_function(mi, c)
+            run.violated("S1", "%s::%s" % (f.qual if f else mi.name,
+                                          norm_text(c)[:60]),
+                         "the decoder searches the whole subtree of the "
+                         "envelope: a Body / Header element nested inside a "
+                         "header block is taken for the message's own",
+                         "%s:%d" % (mi.relpath, c.lineno))
+        if not deep:
+            run.holds("S1", "%s::direct-children-only" % mi.name,
+                      "no subtree search in the SOAP decoders", mi.relpath)
     ps = m.func("soap.parse_soap_enveloped_saml_thingy")
     cfg = cfg_of(ps, m)
     rets = [r for r in cfg.by_kind("return") if unparse(r.ast.value) != "''"]
@@ -502,8 +539,11 @@ def s1_soap(run):
               nontrivial=False)
     asserts = [unparse(a.test) for a in walk_no_nested(ps.node)
                if isinstance(a, ast.Assert)]
-    run.check("len(part) == 1" in asserts and any("Envelope" in a
-                                                  for a in asserts), "S1",
+    # `assert len(<the element whose first child is taken>) == 1`
+    bases = {unparse(s.value.value) for s in sp
+             if isinstance(s.value, ast.Subscript)} | {"part", "body"}
+    run.check(any(("len(%s) == 1" % b) in asserts for b in bases) and
+              any("Envelope" in a for a in asserts), "S1",
               ps.qual + "::envelope-shape",
               "Envelope root and exactly one Body child are asserted",
               "shape assertions changed: %s" % asserts, ps.loc())
